@@ -338,9 +338,17 @@ func c03ParserSubscript(w *World, r *Result) {
 		// values are what is stored)
 		entry := exprEntry(w)
 		var os []origin
-		for _, o := range pf.origins(s.Val, map[ssa.Value]bool{}) {
-			expanded := false
-			if o.kind == "value" && o.val != nil {
+		buildsBound := func(h *ssa.Function) bool {
+			for _, f := range helperClosure(w, h, 2) {
+				if constructsNode(f, "BinaryOperation") || constructsNode(f, "Len") {
+					return true
+				}
+			}
+			return constructsNode(h, "BinaryOperation") || constructsNode(h, "Len")
+		}
+		var expand func(o origin, depth int)
+		expand = func(o origin, depth int) {
+			if o.kind == "value" && o.val != nil && depth < 3 {
 				var call *ssa.Call
 				idx := 0
 				switch x := o.val.(type) {
@@ -351,21 +359,28 @@ func c03ParserSubscript(w *World, r *Result) {
 					call = x
 				}
 				if call != nil {
-					if h := call.Call.StaticCallee(); h != nil && h != entry && h.Blocks != nil && pkgOf(h) == w.Pkgs["parser"].Types && (constructsNode(h, "BinaryOperation") || constructsNode(h, "Len")) {
+					if h := call.Call.StaticCallee(); h != nil && h != entry && h.Blocks != nil && pkgOf(h) == w.Pkgs["parser"].Types && buildsBound(h) {
+						n := 0
 						for _, hb := range h.Blocks {
 							ret, ok := hb.Instrs[len(hb.Instrs)-1].(*ssa.Return)
 							if !ok || idx >= len(ret.Results) || isErrorReturn(ret) {
 								continue
 							}
-							os = append(os, pf.origins(ret.Results[idx], map[ssa.Value]bool{})...)
-							expanded = true
+							for _, o2 := range pf.origins(ret.Results[idx], map[ssa.Value]bool{}) {
+								expand(o2, depth+1)
+								n++
+							}
+						}
+						if n > 0 {
+							return
 						}
 					}
 				}
 			}
-			if !expanded {
-				os = append(os, o)
-			}
+			os = append(os, o)
+		}
+		for _, o := range pf.origins(s.Val, map[ssa.Value]bool{}) {
+			expand(o, 0)
 		}
 		for i, o := range os {
 			key := fmt.Sprintf("affine:parser:%s#%d", s.Field, i+1)
